@@ -7,6 +7,7 @@ indexes, their agreement with the primary view, no-duplicates, the choice of acc
 import re
 
 from vlib import Unit
+from rsx import LostAnchor
 
 SRC = 'crates/grafeo-core/src/graph/rdf/store.rs'
 TRI = 'crates/grafeo-core/src/graph/rdf/triple.rs'
@@ -64,6 +65,9 @@ fn vec_concat<T>(a: Vec<T>, b: Vec<T>) -> (r: Vec<T>) ensures r@ == a@ + b@ { le
             forall|o: Term| #![trigger final(m)@.contains_key(o)] #![trigger old(m)@.contains_key(o)] #![trigger final(m)@[o]] #![trigger old(m)@[o]]
                 o != k ==> (final(m)@.contains_key(o) == old(m)@.contains_key(o)) && (old(m)@.contains_key(o) ==> final(m)@[o] == old(m)@[o]),
 { m.entry(k).or_default().push(v); }
+// E3t: `drop(std::mem::take(&mut X))` by the type of X - std: what is left behind is Default::default(): the empty map / None (ASSUMED)
+#[verifier::external_body] fn take_map(m: &mut HashMap<Term, Vec<Arc<Triple>>>) ensures final(m)@ == Map::<Term, Vec<Arc<Triple>>>::empty() { drop(std::mem::take(m)); }
+#[verifier::external_body] fn take_opt_map(m: &mut Option<HashMap<Term, Vec<Arc<Triple>>>>) ensures *final(m) is None { drop(std::mem::take(m)); }
 
 @@Triple@@
 impl vstd::std_specs::cmp::PartialEqSpecImpl for Triple {
@@ -575,9 +579,16 @@ r__''' % (fld, name))
     # ---- clear ----
     f = u.method(SRC, 'RdfStore', 'clear').D1()
     f.sub('E3', 'pub fn clear(&self)', 'pub fn clear(&mut self)')
-    f.sub('E3', 'self.triples.write().clear();', 'primary_clear(&mut self.triples);')
-    f.resub('E3', r'self\.(subject_index|predicate_index)\.write\(\)\.clear\(\);', r'self.\1.clear();')
-    f.sub('E3', '= *self.object_index.write()', '= self.object_index')
+    f.resub_opt('E3', r'self\.triples\.write\(\)\.clear\(\);', 'primary_clear(&mut self.triples);')
+    f.resub_opt('E3', r'self\.(subject_index|predicate_index)\.write\(\)\.clear\(\);', r'self.\1.clear();')
+    f.resub_opt('E3', r'= \*self\.object_index\.write\(\)', '= self.object_index')
+    # E3t: `drop(std::mem::take(&mut *self.F.write()))` - std: mem::take leaves T::default() behind; by the field's declared type that is the empty set / the
+    # empty map / None (ASSUMED helpers, one per type)
+    f.resub_opt('E3t', r'drop\(std::mem::take\(&mut \*self\.triples\.write\(\)\)\);', 'primary_clear(&mut self.triples);')
+    f.resub_opt('E3t', r'drop\(std::mem::take\(&mut \*self\.(subject_index|predicate_index)\.write\(\)\)\);', r'take_map(&mut self.\1);')
+    f.resub_opt('E3t', r'drop\(std::mem::take\(&mut \*self\.object_index\.write\(\)\)\);', 'take_opt_map(&mut self.object_index);')
+    if re.search(r'\.(write|read)\(\)', f.text):
+        raise LostAnchor('rule E3 in RdfStore::clear: a lock use of a shape no rule covers')
     f.requires('wf', 'old(self).store_wf()')
     f.ensures('empty_set', 'final(self).triples.view() == Set::<Triple>::empty()')
     f.ensures('store_invariant', 'final(self).store_wf()')
@@ -586,6 +597,7 @@ r__''' % (fld, name))
     # ---- commit_tx: the buffered operations are applied in order, as a set ----
     u.item(SRC, 'enum', 'PendingOp').D1(keep_derive=set()).resub('V1', r'^enum PendingOp', 'pub enum PendingOp', flags=re.M)
     u.trust('external_body TxId', 'E1: opaque id, only passed through')
+    u.trust('external_body take_map', 'E3t: mem::take on a HashMap leaves the empty map (Default)'); u.trust('external_body take_opt_map', 'E3t: mem::take on an Option leaves None (Default)')
     u.trust('external_body tx_take', 'E3/E1: takes the buffered operations of a transaction out of the (opaque) buffer; commit_tx is specified relative to that sequence')
     f = u.method(SRC, 'RdfStore', 'commit_tx').D1().ret('r')
     f.sub('E3', 'pub fn commit_tx(&self,', 'pub fn commit_tx(&mut self,')
